@@ -27,6 +27,9 @@ on creating instances through the metaclasses / instances it kept.  D: every def
 metamodel, and one of the values of the generator the metamodel holds at that moment (the harness keeps the
 generator objects); a creation advances that generator by exactly the number of ids it defaulted.
 
+Family `dry` (D only, see _dry_case): finite user-supplied generators and more defaulted creations than ids: an exception
+out of new() is accepted, an instance with a null / foreign / repeated defaulted id is not.
+
 Family `twin` (D only, see _twin_case): two metamodels with the same classes in one process, with separate generators or
 sharing one generator object, swapping and sharing generators along the way.  D: a defaulted id comes from the current
 generator of the metamodel the instance is created in, is non-null and new; only that generator advances, by the
@@ -50,6 +53,8 @@ RULE = ('(1) exhaustive: every interleaving of peek / next of length <= 9 (quick
         '(5) explicit ids inside the generator\'s future range (D and K): new(A, Id=<one of the next 5 values the generator will '
         'hand out>) interleaved with creations that omit the id, integer and counting generators (open finding '
         'explicit-id-collision); '
+        '(6) generators that run dry (D only): a plain finite iterator or an IdGenerator whose readfunc raises StopIteration after '
+        '0-5 values, more creations with the id omitted than values (no instance with a null id may be handed out); '
         '(4) two metamodels in one process (D only) with the same classes, separate generators or one shared generator '
         'object, 4-14 ops of new (through metamodel / metaclass / call) / fresh generator / take over the other one\'s generator / '
         'load short rows, in either metamodel; '
@@ -295,6 +300,24 @@ def _explicit_case(r):
     return case
 
 
+def _dry_case(r):
+    """D-only family `dry`: user-supplied generators that RUN DRY - a plain finite iterator given as id_generator, or an
+    IdGenerator subclass whose readfunc raises StopIteration after k values - and more creations with the id omitted than
+    there are ids.  Whatever the library does on exhaustion (letting the exception out of new() is fine), it must not HAND
+    OUT an instance whose defaulted id is null, and the ids it does hand out stay distinct values of the generator."""
+    attrs = []
+    if r.random() < 0.5:
+        attrs.append(['n', respell(r, 'INTEGER')])
+    attrs.append(['Id', respell(r, 'UNIQUE_ID')])
+    if r.random() < 0.3:
+        attrs.append(['Id2', respell(r, 'UNIQUE_ID')])
+    r.shuffle(attrs)
+    k = r.randint(0, 5)
+    ops = [['new', r.choice(['m', 'mc', 'call'])] for _ in range(r.randint(k // 2 + 1, k + 5))]
+    return {'gen': 'user', 'start': 1, 'step': 1, 'fam': 'dry', 'kind_of_generator': r.choice(['iterator', 'idgen']),
+            'values': k, 'attrs': attrs, 'ops': ops}
+
+
 def _twin_case(r):
     """D-only family: TWO metamodels in one process that define the same classes (same kinds, same attribute names).  They
     start with separate generators or SHARE one generator object; during the history either one gets a fresh generator
@@ -346,6 +369,9 @@ def generate(ctx):
     er = ctx.rng.fork('explicit')
     for i in range(ctx.pick(1500, 15000)):
         yield _explicit_case(er.fork(i))
+    dr = ctx.rng.fork('dry')
+    for i in range(ctx.pick(800, 8000)):
+        yield _dry_case(dr.fork(i))
     tr = ctx.rng.fork('twin')
     for i in range(ctx.pick(1200, 15000)):
         yield _twin_case(tr.fork(i))
@@ -535,6 +561,66 @@ def _run_hist(case):
             'key': 'hist/%r' % (case['ops'],), 'stats': stats, 'model_line': None}
 
 
+def _run_dry(case):
+    x = _x
+    k = case['values']
+    handed = list(range(501, 501 + k))
+    if case['kind_of_generator'] == 'iterator':
+        gen = iter(list(handed))
+    else:
+        class Finite(x.IdGenerator):
+            def __init__(self):
+                self.left = list(handed)
+                x.IdGenerator.__init__(self)
+
+            def readfunc(self):
+                if not self.left:
+                    raise StopIteration
+                return self.left.pop(0)
+        try:
+            gen = Finite()
+        except StopIteration:
+            # a generator without a single value cannot even be constructed (IdGenerator reads one value ahead)
+            return {'obs': [], 'd_fail': [], 'nontrivial': False, 'key': 'dry/%r' % (case,), 'stats': {'cases_dry': 1, 'dry_unconstructible': 1},
+                    'model_line': None}
+    m = x.MetaModel(gen)
+    attrs = [tuple(a) for a in case['attrs']]
+    mc = m.define_class('D', list(attrs))
+    fails, seen = [], set()
+    stats = {'cases_dry': 1, 'dry_' + case['kind_of_generator']: 1}
+    returned = refused = 0
+    for n, op in enumerate(case['ops']):
+        try:
+            inst = m.new('D') if op[1] == 'm' else (mc.new() if op[1] == 'mc' else mc())
+        except (StopIteration, RuntimeError, x.MetaException) as e:
+            refused += 1
+            stats['dry_refused_' + type(e).__name__] = stats.get('dry_refused_' + type(e).__name__, 0) + 1
+            continue
+        returned += 1
+        for a, t in attrs:
+            if t.upper() != 'UNIQUE_ID':
+                continue
+            v = inst.__dict__.get(a)
+            where = 'creation number %d (of %d) with a %s that hands out %d value(s): attribute %s' % (
+                n + 1, len(case['ops']), 'plain iterator' if case['kind_of_generator'] == 'iterator' else
+                'IdGenerator whose readfunc raises StopIteration', k, a)
+            if v is None or isinstance(v, bool) or not isinstance(v, int) or v == 0:
+                if len(fails) < 3:
+                    fails.append({'sig': 'null-id', 'what': '%s: new() RETURNED an instance whose defaulted unique id is %r (the generator is '
+                                  'exhausted); attributes %r' % (where, v, case['attrs'])})
+            elif v not in handed:
+                if len(fails) < 3:
+                    fails.append({'sig': 'id-not-from-metamodel-generator', 'what': '%s: defaulted id %r is none of the generator\'s values %r'
+                                  % (where, v, handed)})
+            elif v in seen:
+                if len(fails) < 3:
+                    fails.append({'sig': 'id-repeats', 'what': '%s: defaulted id %r was already handed out' % (where, v)})
+            seen.add(v)
+    stats['dry_returned'] = returned
+    return {'obs': [], 'd_fail': fails, 'nontrivial': refused > 0 and returned > 0, 'key': 'dry/%r' % (case,), 'stats': stats,
+            'model_line': None}
+
+
 def _run_twin(case):
     x = _x
     import logging
@@ -655,6 +741,8 @@ def run_impl(case):
         return _run_hist(case)
     if case.get('fam') == 'twin':
         return _run_twin(case)
+    if case.get('fam') == 'dry':
+        return _run_dry(case)
     x = _x
     uuid_log = []
     gen = _make_generator(case, uuid_log)
